@@ -163,6 +163,7 @@ class Engine:
         self.sm = sm
         self.hier = ExcHierarchy(repo)
         self.loop_k = loop_k
+        self.loop_k_in: dict[str, int] = {}  # function qualname -> unrolling bound for the loops written in that function
         self.max_paths = max_paths
         self.max_depth = max_depth
         self.all_status = frozenset(sm.members)
@@ -338,7 +339,7 @@ class Engine:
                     yield s2, o
             return
         if isinstance(n, ast.While):
-            yield from self.loop_while(n, fr, st, self.loop_k)
+            yield from self.loop_while(n, fr, st, self.loop_k_in.get(fr.f.qualname, self.loop_k))
             return
         if isinstance(n, (ast.For, ast.AsyncFor)):
             yield from self.loop_for(n, fr, st)
@@ -440,7 +441,7 @@ class Engine:
             elif isinstance(itv, GenCall):
                 yield from self.iterate_gen(n, fr, s, itv)
             elif isinstance(itv, Source):
-                yield from self.iterate_source(n, fr, s, itv, self.loop_k)
+                yield from self.iterate_source(n, fr, s, itv, self.loop_k_in.get(fr.f.qualname, self.loop_k))
             elif isinstance(itv, tuple):
                 yield from self.iterate_items(n, fr, s, list(itv))
             else:
@@ -839,7 +840,7 @@ class Engine:
         loc = dict(func=f.qualname, lineno=c.lineno, file=f.module.relpath)
         # arguments first (they may contain effectful calls)
         inner_calls = [a for a in list(c.args) + [k.value for k in c.keywords] if any(isinstance(x, ast.Call) for x in ast.walk(a))]
-        if inner_calls and nm not in ("next",):
+        if inner_calls and (nm not in ("next",) or (c.args and isinstance(c.args[0], ast.Call))):
             # evaluate nested calls for effects, then continue with pure values
             def rec(args, s0):
                 if not args:
@@ -1012,6 +1013,32 @@ class Engine:
             return
         if nm in ("list", "set") and isinstance(c.func, ast.Name) and not c.args:
             yield st, IdSet("empty", ()), None
+            return
+        if nm == "iter" and isinstance(c.func, ast.Name) and len(args) == 1 and isinstance(args[0], GenCall):
+            yield st, args[0], None
+            return
+        if nm == "next" and isinstance(c.func, ast.Name) and args and isinstance(args[0], GenCall):
+            # next(generator[, default]): the generator runs to its FIRST yield and is then abandoned -
+            # whatever it would do after that yield (deferred re-routing, clean-up) never happens
+            v = args[0]
+
+            def on_first(val, s):
+                yield s, Outcome("break")
+
+            for s, o in self.exec_func(v.func, dict(v.env), st, on_first):
+                if o.kind == "abandon":
+                    ys = [e.tok for e, _ in s.trace[len(st.trace):] if e.kind == "YIELD"]
+                    s = ev(s, Event("GEN-ABANDONED", None, v.func.name, **loc))
+                    yield s, (Inv(ys[-1]) if ys and ys[-1] else UNK), None
+                elif o.kind == "return":
+                    if len(args) > 1:
+                        yield s, UNK if args[1] is UNK else args[1], None
+                    else:
+                        yield s, UNK, ExcVal("StopIteration", None)
+                elif o.kind == "raise":
+                    yield s, UNK, o.exc
+                else:
+                    yield s, UNK, None
             return
         if nm in ("list", "set", "tuple") and isinstance(c.func, ast.Name) and c.args:
             v = args[0]
